@@ -604,3 +604,70 @@ func ZZ_C15_assertion_replay() {
 		}
 	}
 }
+
+// ---- JWKS by URI: the client registers a jwks_uri; fosite resolves it through the configured fetcher, first from
+// the cache and, when no fitting key is found, once more bypassing the cache.
+
+type fakeFetcher struct {
+	cached, fresh *jose.JSONWebKeySet
+	calls         []bool // ignoreCache of every call
+}
+
+func (f *fakeFetcher) Resolve(ctx context.Context, location string, ignoreCache bool) (*jose.JSONWebKeySet, error) {
+	f.calls = append(f.calls, ignoreCache)
+	if location != "https://c1.example/jwks.json" {
+		return nil, fosite.ErrServerError.WithHint("unexpected jwks_uri")
+	}
+	if ignoreCache {
+		return f.fresh, nil
+	}
+	return f.cached, nil
+}
+
+// ZZ_C15_assertion_jwks_uri: the signing key is in the cached set, only in the freshly fetched set (key rotation),
+// or in neither; other client's key under the same kid.
+func ZZ_C15_assertion_jwks_uri() {
+	kindA, kindB := zzjwt.P256, zzjwt.RSA
+	w := newWorld(kindA, kindB, zzjwt.NaturalAlg(kindA), false, "sig")
+	// key R: the client's rotated-in key (new kid), only in the fresh set
+	r := &key{name: "R", owner: "c1", kind: kindA, kid: "kR"}
+	r.priv, r.pub = zzjwt.GenKey(kindA)
+	w.keys["R"] = r
+	a := w.keys["A"]
+	ff := &fakeFetcher{
+		cached: &jose.JSONWebKeySet{Keys: []jose.JSONWebKey{zzjwt.JWK(a.pub, a.kid, zzjwt.NaturalAlg(kindA), "sig")}},
+		fresh:  &jose.JSONWebKeySet{Keys: []jose.JSONWebKey{zzjwt.JWK(r.pub, r.kid, zzjwt.NaturalAlg(kindA), "sig")}},
+	}
+	cl := oidcClient("c1", nil, zzjwt.NaturalAlg(kindA))
+	cl.JSONWebKeysURI = "https://c1.example/jwks.json"
+	w.store.Clients["c1"] = cl
+	w.f.Config.(*fosite.Config).JWKSFetcherStrategy = ff
+	now := time.Now()
+	names := []string{"A", "R", "C", "U"}
+	k := w.keys[names[zz.Choice("signer", len(names))]]
+	sp := concrete(w, now, "c1", k, zzjwt.NaturalAlg(kindA), "jti-uri", 600)
+	if zz.Choice("kid", 2) == 1 {
+		sp.kid = k.kid
+	}
+	tok := sp.token()
+	n0 := len(w.store.sets)
+	got, err := w.present(tok, "")
+	zz.Observe("uri.err", errName(err))
+	if err == nil {
+		zz.Cover("uri:accepted", true)
+		w.checkAccepted(sp, got, n0, "uri")
+		if k.name == "R" {
+			zz.Cover("uri:accepted-after-refetch", true)
+			zz.Assert(len(ff.calls) == 2 && !ff.calls[0] && ff.calls[1], "uri: the cache is bypassed exactly once, after the cached set failed")
+		} else {
+			zz.Assert(len(ff.calls) == 1 && !ff.calls[0], "uri: a key found in the cached set needs no refetch")
+		}
+	} else {
+		zz.Cover("uri:refused", true)
+		// (without a kid the cached key is tried and no refetch happens: a rotated-in key must be named by its kid)
+		zz.Assert(k.name == "C" || k.name == "U" || (k.name == "R" && sp.kid == ""), "uri: an assertion signed by a key of the client's cached JWKS, or naming a key of the current one, authenticates")
+		if k.name == "R" {
+			zz.Cover("uri:refused-rotated-key-without-kid", true)
+		}
+	}
+}
